@@ -469,6 +469,15 @@ def _precompute_summary_stats_from_h5ad_and_lookup(
         assert len(work_load[ii]) == 0
         work_load.pop(ii)
 
+    if verif_hooks.on():
+        verif_hooks.emit(
+            'WorkSplit',
+            n_per=int(n_per),
+            n_processors=int(n_processors),
+            rows_at_a_time=int(rows_at_a_time),
+            work_load=[[[pathlib.Path(c[0]).name, int(c[1]), int(c[2])]
+                        for c in load] for load in work_load])
+
     buffer_path_list = []
     process_list = []
     for work_spec in work_load:
